@@ -751,3 +751,88 @@ def _path_to(F, root, targets):
                 prev[m] = n
                 q.append(m)
     return []
+
+
+# --------------------------------------------------------------------- R-DROP-ORDER
+
+def r_drop_order(F, V):
+    """(i) wherever elements are destroyed and their storage released in one body, destruction dominates release;
+    (ii) the collection's own Drop releases through drop_inner_table; (iii) in resize_inner the guard that owns the
+    *other* table after mem::swap is left armed, so the old block is freed by it."""
+    R = Result("R-DROP-ORDER", F.cfg)
+    n = 0
+    for p, body in F.bodies.items():
+        de = [i for i, t in body.calls() if (callee_path(t) or "").endswith("::drop_elements")]
+        fr = [i for i, t in body.calls() if (callee_path(t) or "").endswith("::free_buckets") or _is_alloc_trait_call(t, "deallocate")]
+        if de and fr:
+            n += 1
+            key = "%s|destroy-before-free" % p
+            if all(any(body.dominates(d, f) for d in de) for f in fr):
+                R.inst(key, "element destruction dominates the release of the block", "ok", True, where(body, bb=fr[0]))
+            else:
+                R.violation(key, body, "the table's block is released before (or without) its elements being destroyed: destructors would run on freed memory / elements leak", line=line_of(body, bb=fr[0]))
+                R.inst(key, "free before destroy", "violation", True, where(body, bb=fr[0]))
+    b = F.bodies.get("raw::<RawTable as Drop>::drop")
+    if b is None:
+        R.violation("raw::RawTable|no-drop", _NoBody("raw::RawTable"), "RawTable has no Drop impl: every table leaks its elements and its block")
+    else:
+        n += 1
+        if any((callee_path(t) or "").endswith("::drop_inner_table") and _arg_has_field(b, t, "table") for i, t in b.calls()):
+            R.inst("raw::<RawTable as Drop>::drop", "Drop releases self.table through drop_inner_table", "ok", True, where(b))
+        else:
+            R.violation("raw::<RawTable as Drop>::drop|release", b, "RawTable::drop does not release self.table through drop_inner_table")
+    rb = F.bodies.get("raw::RawTableInner::resize_inner")
+    if rb is not None:
+        n += 1
+        key = "raw::RawTableInner::resize_inner|old-block-freed-by-guard"
+        swaps = [i for i, t in rb.calls() if (callee_path(t) or "") == "core::mem::swap"]
+        glocals = [l for l in range(len(rb.locals)) if rb.locals[l]["ty"].get("path") == "scopeguard::ScopeGuard"]
+        problems = []
+        if not swaps:
+            problems.append("no mem::swap of the old and the new table")
+        for g in glocals:
+            if "name" not in rb.locals[g]:
+                continue
+            groot = rb.root_of_place({"l": g})[0]
+            dis = guard_disarms_local(rb, groot) + (guard_disarms_local(rb, g) if groot != g else [])
+            if dis:
+                problems.append("the guard `%s` that owns the old table after the swap is disarmed (mem::forget / into_inner): the old block is never freed" % rb.locals[g].get("name"))
+            drops = [i for i in rb.normal if rb.term(i)["k"] == "drop" and (rb.term(i)["p"]["l"] == g or rb.root_of_place(rb.term(i)["p"])[0] == groot)]
+            if swaps and not any(d in _reach(rb, s) for d in drops for s in swaps):
+                problems.append("the guard is not dropped after the swap")
+        if problems:
+            R.violation(key, rb, "; ".join(problems))
+            R.inst(key, "; ".join(problems), "violation", True, where(rb))
+        else:
+            R.inst(key, "after mem::swap the armed guard is dropped, freeing the old block", "ok", True, where(rb))
+    R.floor("destroy/release bodies", n, {"posctl": 0}.get(F.cfg, 3))
+    return R
+
+
+class _NoBody:
+    def __init__(self, path):
+        self.path = path
+
+    def file(self):
+        return "src/raw/mod.rs"
+
+    def line(self):
+        return 1
+
+
+def _arg_has_field(body, t, name):
+    if not t["args"] or t["args"][0]["k"] not in ("copy", "move"):
+        return False
+    return name in deep_root(body, t["args"][0]["p"])[1]
+
+
+def _reach(body, b):
+    out = set()
+    for s in body.nsucc[b]:
+        out |= body.reachable_from(s)
+    return out
+
+
+def guard_disarms_local(body, g):
+    from rules.accounting import guard_disarms
+    return guard_disarms(body, g)
